@@ -27,12 +27,14 @@ INFO = {
     "under another option vector is loaded as is' is assumed away (precondition: equal vectors) and replayed natively "
     "as a known finding.  (M) mtime order: os.path.getmtime seen by parglare.tables is a stub returning symbolic "
     "integers for root grammar, imported grammar and .pgc; after the imported/root file was edited, .pgc older than any "
-    "grammar file => the parser behaves as the edited grammar and the .pgc is rewritten.  (K) crash prefix: symbolic "
+    "grammar file => the parser behaves as the edited grammar and the .pgc is rewritten; a second case gives the stub the "
+    "sub-second resolution of real mtimes (q/4 seconds, q a symbolic integer in 0..11, carried by an integer-grid number "
+    "type supporting comparison and int()/float()/round()).  (K) crash prefix: symbolic "
     "0 <= k < len(.pgc); the cache file is truncated to k bytes and the parser built again must behave like no cache "
     "(the solver enumerates k at the file boundary: exhaustive over all prefixes of that file, no class merging).  "
     "(R) round trip, no symbolic variable (a plain differential, labelled as such): save/load/save over the grammar "
     "families - actions, gotos, finish flags, conflicts, dynamic marks equal; second save byte-identical.",
-    "bounds": {"quick": {"H": "1 grammar file with an import, 2 builds", "M": "4 files (root -> imp -> leaf chain + .pgc), symbolic mtimes", "K": "every prefix of the .pgc of one small grammar (split over 8 workers)", "R": "GF-shapes + 100 GF-tiny(3)"},
+    "bounds": {"quick": {"H": "1 grammar file with an import, 2 builds", "M": "4 files (root -> imp -> leaf chain + .pgc), symbolic mtimes: unbounded integers, and quarter seconds in [0, 3)", "K": "every prefix of the .pgc of one small grammar (split over 8 workers)", "R": "GF-shapes + 100 GF-tiny(3)"},
                "thorough": {"H": "3 grammar files", "K": "every prefix for 3 grammar files incl. one with an import", "R": "all GF-tiny(3)"}},
     "outside": "histories longer than two builds + one edit; pglr compile (CLI); concurrent writers; equal mtimes; "
     "the .pgec error-hints cache",
@@ -89,6 +91,8 @@ def cases(tier, seed):
     out.append({"name": "H:imports", "params": {"kind": "H", "g": "imports"}, "budget_s": 3000})
     out.append({"name": "H:flat-ambiguous", "params": {"kind": "H", "g": "flat"}, "budget_s": 3000})
     out.append({"name": "M:imports", "params": {"kind": "M"}, "budget_s": 1500})
+    # os.path.getmtime returns float seconds: the same with times in quarter seconds (q/4 with q a symbolic int, 0 <= q < 12)
+    out.append({"name": "M:imports|fractional mtimes", "params": {"kind": "M", "frac": 4}, "budget_s": 600})
     kgs = [("small", False), ("overlap", True)] if tier == "quick" else [("small", False), ("overlap", True), ("overlap", False), ("flat", False), ("flat", True), ("imports", False)]
     for kg, glr in kgs:
         parts = 8 if kg in ("small", "overlap") else 32
@@ -192,6 +196,66 @@ def build_H(params, symbolic):
 
 
 # ------------------------------------------------------------------------------------------ (M)
+class _QTime:
+    """Seconds on a 1/den grid (q/den, q a symbolic int) as the number os.path.getmtime returns: ordered like the
+    rational it stands for, convertible with int()/float()/round()/floor - all in integer arithmetic, because
+    symbolic reals make the solver queries of this harness an order of magnitude slower."""
+
+    def __init__(self, q, den):
+        self.q, self.den = q, den
+
+    def _q(self, o):
+        if isinstance(o, _QTime):
+            return o.q * self.den, self.q * o.den
+        return o * self.den, self.q
+
+    def __lt__(self, o):
+        b, a = self._q(o)
+        return a < b
+
+    def __le__(self, o):
+        b, a = self._q(o)
+        return a <= b
+
+    def __gt__(self, o):
+        b, a = self._q(o)
+        return a > b
+
+    def __ge__(self, o):
+        b, a = self._q(o)
+        return a >= b
+
+    def __eq__(self, o):
+        b, a = self._q(o)
+        return a == b
+
+    def __ne__(self, o):
+        return not self.__eq__(o)
+
+    def __hash__(self):
+        return hash(self.q)
+
+    def __int__(self):
+        return self.q // self.den  # q >= 0
+
+    __trunc__ = __floor__ = __int__
+
+    def __ceil__(self):
+        return -((-self.q) // self.den)
+
+    def __round__(self, nd=None):
+        return round(float(self), nd) if nd else (2 * self.q + self.den) // (2 * self.den)
+
+    def __float__(self):
+        return self.q / self.den
+
+    def __sub__(self, o):
+        return float(self) - float(o)
+
+    def __rsub__(self, o):
+        return float(o) - float(self)
+
+
 class _OsShim:
     """What parglare.tables sees as `os`: real module, except path.getmtime answers from a table."""
 
@@ -228,6 +292,11 @@ def build_M(params, symbolic):
         with open(os.path.join(d, "root.pgc"), "w") as f:
             f.write(old_cache)
         mt = {"root.pg": m_root, "imp.pg": m_imp, "leaf.pg": m_leaf, "root.pgc": m_pgc}
+        if params.get("frac"):
+            for v in mt.values():
+                if not (0 <= v < 3 * params["frac"]):
+                    raise Pre()
+            mt = {k: _QTime(v, params["frac"]) for k, v in mt.items()}
         with native():
             g = Grammar.from_file(root)
         stale = (m_pgc < m_root) or (m_pgc < m_imp) or (m_pgc < m_leaf)
